@@ -482,6 +482,8 @@ structure World (τ : Type) where
   freshName : Nat := 100000
   nestedRuns : Nat := 0
   scopeInsts : Nat := 0
+  /-- number of put operations executed so far (makes every item value unique) -/
+  putCount : Nat := 0
   deriving Inhabited
 
 end USim.Machine
